@@ -3,7 +3,9 @@
 Specs: specs/bidict/Bidict.tla, M2M.tla, Frozen.tla (+ *MC, *Trace).
 """
 import copy as copymod
+import collections
 import json
+import types
 import pickle
 import random
 import time
@@ -67,6 +69,8 @@ class OtoDriver(Base):
             v = ["pairs", "iter"]
             if distinct:
                 v.append("dict")
+                if hashable and n == "update":
+                    v += ["mappingproxy", "userdict"]        # mappings that are not dicts
                 if self.strkeys and hashable and op["arg"]:
                     v.append("kw")
                     if n == "update" and len(op["arg"]) >= 2:
@@ -84,6 +88,10 @@ class OtoDriver(Base):
         ps = self.pairs(arg)
         if variant == "dict":
             return dict(ps)
+        if variant == "mappingproxy":
+            return types.MappingProxyType(dict(ps))
+        if variant == "userdict":
+            return collections.UserDict(dict(ps))
         if variant == "iter":
             return iter(ps)
         return ps
@@ -187,9 +195,9 @@ class M2MDriver(Base):
     def variants(self, op):
         n = op["op"]
         if n in ("update", "ctor"):
-            v = ["pairs", "iter", "m2m"]
+            v = ["pairs", "iter", "m2m", "m2m-sub", "tuple"]
             if len({p[0] for p in op["arg"]}) == len(op["arg"]):
-                v.append("dict")
+                v += ["dict", "mappingproxy"]
             return v
         if n == "setitem":
             return ["list", "iter", "set", "frozenset"]
@@ -223,13 +231,14 @@ class M2MDriver(Base):
                 ps = self.pairs(op["arg"])
                 f = variant or "pairs"
                 other = None
-                if f == "m2m":
-                    other = self.cls()
+                if f in ("m2m", "m2m-sub"):
+                    other = (type("SubM2M", (self.cls,), {}) if f == "m2m-sub" else self.cls)()
                     for a, b in ps:
                         other.add(a, b)
                     arg = other
                 else:
-                    arg = ps if f == "pairs" else iter(ps) if f == "iter" else dict(ps)
+                    arg = ps if f == "pairs" else iter(ps) if f == "iter" else tuple(ps) if f == "tuple" else \
+                        types.MappingProxyType(dict(ps)) if f == "mappingproxy" else dict(ps)
                 if n == "ctor":
                     o = self.cls(arg)
                     tgt = o
